@@ -24,6 +24,7 @@ func stubKeySerialization() {
 
 // entries -> Keyset proto -> entries preserves keys, ids, statuses, the primary and the order.
 func VerifH_keyset_proto_roundtrip() {
+	verifrt.NativeSkip("key (de)serialization is summarised")
 	stubKeySerialization()
 	n := 1 + verifrt.Choice("n", 3)
 	m := arbitraryManager(n)
